@@ -413,6 +413,9 @@ class Real(Dimension):
         inv_transform = super(Real, self).inverse_transform(Xt)
         if isinstance(inv_transform, list):
             inv_transform = np.array(inv_transform)
+        # base ** log(x) and the de-normalization are rounded: without clipping the upper
+        # (lower) bound can come back one ulp outside of [low, high] (as done for Integer)
+        inv_transform = np.clip(inv_transform, self.low, self.high)
 
         if self.dtype == float or self.dtype == "float":
             # necessary, otherwise the type is converted to a numpy type
